@@ -14,7 +14,8 @@ class ProgGen:
                  p_await: float = 0.35, p_fail: float = 0.0, p_timeout: float = 0.0, p_burst: float = 0.0,
                  p_stuck: float = 0.08, p_factory: float = 0.15, p_opt: float = 0.1, p_delay_pub: float = 0.0, min_nodes: int = 1,
                  p_act_await: float = 0.2, p_overlap: float = 0.1,
-                 p_busy: float = 0.0, p_contend: float = 0.08, p_abort: float = 0.08) -> None:
+                 p_busy: float = 0.0, p_contend: float = 0.08, p_abort: float = 0.08,
+                 p_failfac: float = 0.0) -> None:
         self.rng = rng
         self.max_nodes = max_nodes
         self.max_depth = max_depth
@@ -33,6 +34,7 @@ class ProgGen:
         self.p_busy = p_busy
         self.p_contend = p_contend
         self.p_abort = p_abort
+        self.p_failfac = p_failfac
         self.prog: list[dict[str, Any]] = []
         self.keys: list[tuple[int, str, int]] = []     # (ty, final name, publisher)
         self.used: set[tuple[int, str]] = set()
@@ -296,6 +298,19 @@ class ProgGen:
         if rng.random() < 0.7:
             self.leaf([{"a": "tick", "d": end + 0.25}, {"a": "await", "ty": ty, "name": key, "keep": True}])
 
+    def failfac(self) -> None:
+        """A component is already waiting for a resource when a factory for it is registered whose call fails - with a
+        LookupError, of all things: the waiting component's start() fails with that error (it is not "still missing").
+        Two extra leaves under the root."""
+        rng = self.rng
+        ty = rng.randrange(NT)
+        self.n_res += 1
+        key = f"ff{self.n_res}"
+        self.used.add((ty, key))
+        self.leaf([{"a": "awaitFail", "ty": ty, "name": key, "e": 1, "grp": key, "grp_n": 3}])
+        self.leaf([{"a": "tick", "d": rng.choice([1, 2]), "grp": key},
+                   {"a": "publishFactory", "ty": ty, "name": key, "fid": self.n_res, "fails": 1, "grp": key}])
+
     def overlap(self) -> None:
         """A sibling already waits for (T, n) when a component publishes a resource under (T2, n) and then a
         factory for both T and T2 under n, with nothing else published afterwards."""
@@ -346,7 +361,9 @@ class ProgGen:
             self.contend()
         if rng.random() < self.p_abort:
             self.abort()
-        if rng.random() < self.p_fail:
+        if rng.random() < self.p_failfac:
+            self.failfac()          # (the one failure of this start-up)
+        elif rng.random() < self.p_fail:
             self.inject_fault()
         timeout = 10.0 ** 6
         if rng.random() < self.p_timeout:
